@@ -15,6 +15,9 @@
  *   get <slot> <i>      set <slot> <i> <e>     mem <slot> <v>      rem <slot> <v>        len <slot>
  *   concat <slot> <src>     assign <slot> <src>     resize <slot> <n>     sort <slot> <0|1|2|3>     iter <slot>
  *   kf13 <id:value>                     (known finding F13: a Tuple holding one pointer twice; runs in a forked child)
+ *   kfself <assign|concat> <A|AR|L|T> <e>*   (known findings KF-C04-self-assign / KF-C04-self-concat: op(x, x) on a fresh
+ *                                       container with these elements, in a forked child; AR = Array whose capacity was
+ *                                       reserved to 2*len first; prints `ret <dump>` | `diverges` | `ub`)
  * kinds: A = Array of Int, L = List of Int, T = heap Tuple of Int objects (identity = id), AS / LS = Array / List of String
  * (value v in 0..9999999 is the string "k%07d": strcmp order = numeric order).
  * comparators: 0 = sort() i.e. lt on the whole value, 1 = key(a) < key(b), 2 = key(a) > key(b), 3 = key(a) <= key(b),
@@ -25,6 +28,8 @@
 #include <signal.h>
 #include <inttypes.h>
 #include <errno.h>
+#include <fcntl.h>
+#include <sys/time.h>
 
 #define NSLOT 16
 #define MAXOBJ (1 << 20)
@@ -348,6 +353,55 @@ static void run_kf13(Ent e) {
   }
 }
 
+/* ---- known findings KF-C04-self-assign / KF-C04-self-concat: aliased arguments, in a forked child ---- */
+static void run_kfself(int isc, int k, int reserve, Ent* es, size_t n) {
+  int pf[2]; if (pipe(pf)) { perror("pipe"); exit(2); }
+  fflush(stdout);
+  pid_t pid = fork();
+  if (pid == 0) {
+    close(pf[0]);
+    int devnull = open("/dev/null", O_WRONLY); if (devnull >= 0) dup2(devnull, 2);   /* the sanitizer report is expected */
+    struct itimerval tv = { {0, 0}, {0, 400000} }; setitimer(ITIMER_REAL, &tv, NULL);  /* List_Concat(l, l) allocates for ever */
+    Slot s; memset(&s, 0, sizeof s); s.kind = k;
+    s.obj = new_container(k, es, n);
+    if (reserve && n > 0) resize(s.obj, 2 * n);
+    var exc; if (isc) V_TRY(exc, concat(s.obj, s.obj)); else V_TRY(exc, assign(s.obj, s.obj));
+    tv.it_value.tv_usec = 0; setitimer(ITIMER_REAL, &tv, NULL);
+    char b[4096]; size_t o = 0;
+    if (exc) o = snprintf(b, sizeof b, "err=%s", v_exc_name(exc));
+    else { read_rep(&s); o = fmt_dump(b, sizeof b, &s); }
+    if (write(pf[1], b, o) < 0) {}
+    _exit(0);
+  }
+  close(pf[1]); static char b[4200]; size_t got = 0; ssize_t r;
+  while ((r = read(pf[0], b + got, sizeof b - 1 - got)) > 0) got += r; b[got] = 0; close(pf[0]);
+  int st; waitpid(pid, &st, 0);
+  const char* opn = isc ? "concat" : "assign"; const char* kn = reserve ? "AR" : kind_name[k];
+  const char* sig = isc ? "KF-C04-self-concat" : "KF-C04-self-assign";
+  if (WIFSIGNALED(st) && WTERMSIG(st) == SIGALRM) {
+    O("kfself %s %s diverges", opn, kn);
+    X("sig=%s line=%zu what=%s(x, x) on a %s of %zu elements does not terminate", sig, cur_line, opn, kn, n);
+  } else if (!WIFEXITED(st) || WEXITSTATUS(st) != 0) {
+    O("kfself %s %s ub", opn, kn);
+    X("sig=%s line=%zu what=%s(x, x) on a %s of %zu elements leaves the object (%s %d)", sig, cur_line, opn, kn, n,
+      WIFEXITED(st) ? "sanitizer exit status" : "signal", WIFEXITED(st) ? WEXITSTATUS(st) : WTERMSIG(st));
+  } else {
+    O("kfself %s %s ret %s", opn, kn, b);
+    /* the abstract result: assign(x, x) leaves x alone, concat(x, x) doubles it */
+    Slot e; memset(&e, 0, sizeof e); e.kind = k;
+    ref_reserve(&e, 2 * n + 1); entcpy(e.ref, es, n); e.n = n;
+    if (isc) { entcpy(e.ref + n, es, n); e.n = 2 * n; }
+    char want[4096]; size_t o = 0; o += snprintf(want, sizeof want, " n=%zu ", e.n);
+    fmt_seq(want + o, sizeof want - o, e.ref, e.n);
+    /* compare length and element sequence (capacity is not part of the abstract result) */
+    char* bn = strstr(b, " n="); char* bl = bn ? strchr(bn, '[') : NULL; char* wl = strchr(want, '[');
+    char lenb[32]; snprintf(lenb, sizeof lenb, " n=%zu ", e.n);
+    if (!bn || !bl || strncmp(bn, lenb, strlen(lenb)) != 0 || strcmp(bl, wl) != 0)
+      X("sig=%s line=%zu what=%s(x, x) on a %s of %zu elements leaves `%s`, expected%s", sig, cur_line, opn, kn, n, b, want);
+    free(e.ref);
+  }
+}
+
 static Slot* slot_of(const char* tok, int must_exist) {
   int64_t v; if (!parse_nat(tok, &v) || v >= NSLOT) return NULL;
   Slot* s = &SL[v];
@@ -381,6 +435,18 @@ int main(int argc, char** argv) {
     int force_iter = (opcount % 16) == 0;
     if (!strcmp(cmd, "dump") && nt == 2 && (!strcmp(toks[1], "on") || !strcmp(toks[1], "off"))) { dump_on = !strcmp(toks[1], "on"); O("dump %s", toks[1]); continue; }
     if (!strcmp(cmd, "kf13") && nt == 2) { Ent e; if (!parse_elem(K_T, toks[1], &e)) { O("bad-op"); continue; } run_kf13(e); continue; }
+    if (!strcmp(cmd, "kfself") && nt >= 3) {
+      int isc = !strcmp(toks[1], "concat"); int k = K_NONE, reserve = 0;
+      if (!isc && strcmp(toks[1], "assign")) { O("bad-op"); continue; }
+      if (!strcmp(toks[2], "A")) k = K_A; else if (!strcmp(toks[2], "AR")) { k = K_A; reserve = 1; }
+      else if (!strcmp(toks[2], "L")) k = K_L; else if (!strcmp(toks[2], "T")) k = K_T;
+      if (k == K_NONE) { O("bad-op"); continue; }
+      size_t n = nt - 3; Ent* es = malloc((n + 1) * sizeof(Ent)); int ok = 1;
+      for (size_t i = 0; i < n && ok; i++) ok = parse_elem(k, toks[3 + i], &es[i]);
+      if (ok && k == K_T) for (size_t i = 0; i < n && ok; i++) for (size_t j = 0; j < i; j++) if (es[i].id == es[j].id) { ok = 0; break; }
+      if (!ok || n > 200) { free(es); O("bad-op"); continue; }
+      run_kfself(isc, k, reserve, es, n); free(es); continue;
+    }
     if (!strcmp(cmd, "new") && nt >= 3) {
       s = slot_of(toks[1], 0); int k = K_NONE;
       for (int j = 1; j <= 5; j++) if (!strcmp(toks[2], kind_name[j])) k = j;
